@@ -237,3 +237,44 @@ class PCreateTable:
             if words[0].upper() == "GLOBAL":
                 out["is_global"] = True
         p[0] = out
+
+
+@contract
+class PTName:
+    """schema / table (/ project) names are copied verbatim; a fresh table skeleton with empty columns and checks"""
+    fn = "dialects.sql.BaseSQL.p_t_name"
+    props = ["C01", "C06", "C04"]
+    cases = {"id": dict(n=1), "id DOT id": dict(n=2), "id DOT id DOT id": dict(n=3)}
+
+    def build(G, case):
+        return dict(args=[G.parser(), production(G, case["_name"], {})])
+
+    def spec(case, self_, p):
+        if case["n"] == 1:
+            p[0] = {"schema": None, "table_name": p[1], "columns": [], "checks": []}
+        elif case["n"] == 2:
+            p[0] = {"schema": p[1], "table_name": p[3], "columns": [], "checks": []}
+        else:
+            p[0] = {"schema": p[3], "table_name": p[5], "columns": [], "checks": [], "project": p[1]}
+
+
+@contract
+class PTableName:
+    fn = "dialects.sql.BaseSQL.p_table_name"
+    props = ["C01", "C06"]
+    observable = "result"
+    cases = {"create_table t_name": {}}
+
+    def build(G, case):
+        ct = G.record({}, {"if_not_exists": ("ct.ine", True), "replace": ("ct.replace", True), "temp": ("ct.temp", True), "external": ("ct.external", True)})
+        tn = G.record({"schema": none_or_str(G, "tn.schema", NAME), "table_name": G.str("tn.table", NAME), "columns": [], "checks": []},
+                      {"project": ("tn.has_project", G.str("tn.project", NAME))})
+        return dict(args=[G.parser(), production(G, case["_name"], {1: ct, 2: tn})])
+
+    def spec(case, self_, p):
+        p[0] = p[1]
+        for k in p[2]:
+            p[0][k] = p[2][k]
+
+    def ensures(case, old, new, result):
+        return new[1][0] is new[1][1]
